@@ -131,6 +131,29 @@ func c14Contents(r *lib.Rng) (old, nw []byte, shape []string, forced []int, lenR
 			}
 		}
 	}
+	if r.Chance(0.12) {
+		// a file that GROWS, and what it gains equals - offset for offset within the 128 KiB window - what the old
+		// file held one window earlier: new = old + copy of old's last window (old an exact multiple of the window or
+		// not), or a non-zero constant fill that simply gets longer
+		const W = 128 * 1024
+		k := r.Range(1, 3)
+		extra := r.PickInt([]int{0, 0, 1, 5000, W / 2})
+		if r.Bool() {
+			old = lib.RandomBytes(int64(k*W+extra), r.Uint64())
+			tail := old[len(old)-W:]
+			if extra > 0 {
+				tail = old[(k-1)*W+extra : k*W+extra]
+			}
+			nw = append(append([]byte(nil), old...), tail[:r.PickInt([]int{W, W / 2, 9000, W})]...)
+			shape = []string{fmt.Sprintf("grow-by-copy-of-previous-window(k=%d,extra=%d)", k, extra)}
+		} else {
+			fill := byte(0xab)
+			old = bytes.Repeat([]byte{fill}, k*W+extra)
+			nw = bytes.Repeat([]byte{fill}, k*W+extra+r.PickInt([]int{1, 9000, W, W + 77, 3 * W}))
+			shape = []string{fmt.Sprintf("constant-fill-grows(k=%d,extra=%d)", k, extra)}
+		}
+		forced, lenRel, small = nil, "grows-repeating-the-previous-window", false
+	}
 	return
 }
 
